@@ -585,6 +585,14 @@ def k10_refusal(core, rep):
     fnodes = [n for n in g.nodes if n.kind == 'F' and unparse(n.ast) == sup] + [n for n in g.nodes if n.kind == 'T' and unparse(n.ast) == f'not {sup}']
     covered = bool(fnodes) and all(not g.paths_avoiding(fn_, g.exit, {n.id for n in sets}) for fn_ in fnodes)
     rep.ob('K10', 'refusal-recorded', ok and covered, 'when the prompt supplies nothing the refused flag is not (always) set', _w(ai))
+    # every way out of _attempt_input has either stored (and announced) an answer or recorded the refusal: an exit that does
+    # neither leaves the input unanswered with prompting still allowed, and the next round asks the same question again - for ever
+    meets = [n for n in g.nodes if n.kind == 'stmt' and any(call_name(c) == 'meet' for c in calls_in(n.ast))]
+    progress = {n.id for n in sets} | {n.id for n in meets}
+    idle = g.paths_avoiding(g.entry, g.exit, progress) if progress else True
+    rep.ob('K10', 'every-exit-answers-or-refuses', not idle,
+           '_attempt_input() can return without having stored an answer or recorded a refusal (for instance for an answer the input rejects): nothing has changed, so solve() asks the same '
+           'input again in the next round and never terminates', _w(ai))
     # who calls the prompt
     for rel, c in core.all_nodes(ast.Call):
         if self_attr(c.func) == s.prompt or (isinstance(c.func, ast.Attribute) and c.func.attr == s.prompt):
@@ -1084,6 +1092,18 @@ def k20_ctrl_c(core, rep):
         loops = [n for n in g.nodes if n.kind == 'F' and n.label == 'loop-exit' and g.dominates(n, node)]
         ok = ok and any('.valid(' in unparse(n.ast) for n in loops)
     rep.ob('K20', 'answer-returned-only-when-valid', ok, 'prompt_input() can return an answer that did not pass the input\'s valid()', _w(f))
+    # ... and what is returned is the very text that passed: nothing rewrites it between the validating loop and the return
+    for r in rets:
+        var = r.value.elts[0]
+        if not isinstance(var, ast.Name):
+            rep.ob('K20', 'answer-returned-as-typed', False, f'prompt_input() returns {unparse(var, 40)} instead of the validated answer', _w(f, r))
+            continue
+        whiles = [w for w in ast.walk(f.node) if isinstance(w, ast.While) and '.valid(' in unparse(w.test)]
+        after = [x for x in ast.walk(f.node) if isinstance(x, (ast.Assign, ast.AugAssign)) and whiles and x.lineno > max(w.end_lineno for w in whiles)
+                 and any(isinstance(t_, ast.Name) and t_.id == var.id for t_ in (x.targets if isinstance(x, ast.Assign) else [x.target]))]
+        rep.ob('K20', 'answer-returned-as-typed', not after,
+               f'prompt_input() rewrites the validated answer before returning it (`{unparse(after[0], 70) if after else ""}`): what reaches the solver and the written-back file is not what '
+               'passed validation - an accepted spelling of "yes" (true, 1, on) can come out as "no" and a gate the user affirmed is skipped', _w(f, after[0]) if after else _w(f))
     # ordering inside _attempt_input: answer -> (assert valid) -> store
     s = core.solver
     ai = core.func(s.rel, s.name, '_attempt_input')
@@ -1108,6 +1128,13 @@ def k21_typed_values(core, rep):
     if len(calls) != 1 or not isinstance(calls[0].targets[0], ast.Name):
         raise AnalysisError('TypedField.value(): call of the value function not found (anchor vanished)')
     v = calls[0].targets[0].id
+    # what is type-tested is what the definition answered: nothing converts it in between (rounding a subclass of float, a
+    # text or a tuple first either coerces it silently or fails with an error that does not name the line)
+    again = [n for n in ast.walk(f.node) if isinstance(n, (ast.Assign, ast.AugAssign)) and n is not calls[0]
+             and any(isinstance(t_, ast.Name) and t_.id == v for t_ in (n.targets if isinstance(n, ast.Assign) else [n.target]))]
+    rep.ob('K21a', 'type-test-on-the-raw-answer', not again,
+           f'TypedField.value() rebinds the answer (`{unparse(again[0], 50) if again else ""}`) before it is type-tested: an answer of the wrong type is converted or fails inside the conversion '
+           'instead of being rejected with the TypeError that names the line', _w(f, again[0]) if again else _w(f))
     for r in rets:
         txt = unparse(r.ast.value)
         facts = g.branch_facts(r)
@@ -1275,8 +1302,27 @@ def k22_solution_agreement(core, rep):
             c, node = core.classes.find_method(name, m)
             ok = node is not None and c.name != 'Field' and not any(isinstance(x, ast.Raise) for x in ast.walk(node))
             rep.ob('K22b', f'{name}.{m}/implemented', ok, f'{name}.{m}() is the raising base implementation', c.rel if c else '')
+    # text and whole-number lines are written and read verbatim: str(value) out, the line's type applied to the text in
+    for name in ('StringField', 'IntegerField'):
+        c1, n1 = core.classes.find_method(name, 'to_string')
+        c2, n2 = core.classes.find_method(name, 'from_string')
+        ok = n1 is not None and len([x for x in n1.body if not (isinstance(x, ast.Expr) and isinstance(x.value, ast.Constant))]) == 1 \
+            and unparse(n1.body[-1]) == f'return str({n1.args.args[1].arg})'
+        rep.ob('K22b', f'{name}.to_string/verbatim', ok,
+               f'{name}.to_string() (in {c1.name if c1 else "?"}) is not `return str(value)`: the text in the solution differs from the stored value (line breaks replaced, say), so the line as reported '
+               'is not what its definition yields and does not read back', f'{c1.rel}:{n1.lineno}' if n1 is not None else '')
+        ok = n2 is not None and unparse(n2.body[-1]) in (f'return self._type({n2.args.args[1].arg})',)
+        rep.ob('K22b', f'{name}.from_string/verbatim', ok, f'{name}.from_string() (in {c2.name if c2 else "?"}) is not `return self._type(string)`', f'{c2.rel}:{n2.lineno}' if n2 is not None else '')
     ci = core.classes.classes['FloatField']
     ts, fs = ci.methods.get('to_string'), ci.methods.get('from_string')
+    if ts is not None:
+        vp_ = ts.args.args[1].arg
+        rebound = [x for x in ast.walk(ts) if isinstance(x, (ast.Assign, ast.AugAssign)) and any(isinstance(t_, ast.Name) and t_.id == vp_ for t_ in (x.targets if isinstance(x, ast.Assign) else [x.target]))]
+        fmt = [x for x in ast.walk(ts) if isinstance(x, ast.FormattedValue)]
+        ok = not rebound and len([x for x in fmt if x.format_spec is not None]) == 1 and all(isinstance(x.value, ast.Name) and x.value.id in (vp_,) or 'self._places' in unparse(x.value) for x in fmt)
+        rep.ob('K22b', 'FloatField.to_string/formats-the-value-itself', ok,
+               f'FloatField.to_string() changes the amount before formatting it (`{unparse(rebound[0], 50) if rebound else unparse(ts.body[-1], 50)}`): a sign or digits are lost on the way into the solution '
+               '(lines kept to 3 or 5 places hold small negative values that are not zero)', f'{ci.rel}:{ts.lineno}')
     ok = ts is not None and fs is not None and 'self._places' in unparse(ts) and 'self._places' in unparse(fs) \
         and any(isinstance(x, ast.JoinedStr) for x in ast.walk(ts))
     rep.ob('K22b', 'FloatField/same-places-both-ways', ok, 'FloatField.to_string and from_string do not use the same number of decimal places', ci.rel)
@@ -1307,6 +1353,15 @@ def k22_solution_agreement(core, rep):
     st = [n for n in ast.walk(rf.node) if isinstance(n, ast.Assign) and isinstance(n.targets[0], ast.Subscript) and self_attr(n.targets[0].value) == '_values']
     ok = len(st) == 1 and isinstance(st[0].value, ast.Call) and call_name(st[0].value) == 'from_string'
     rep.ob('K22b', 'filler-retypes-through-from_string', ok, 'the filler stores solution text without converting it through the line\'s from_string()', _w(rf))
+    if ok:
+        arg = st[0].value.args[0] if st[0].value.args else None
+        src_ = arg
+        if isinstance(arg, ast.Name):
+            asg = [x for x in ast.walk(rf.node) if isinstance(x, ast.Assign) and any(isinstance(t_, ast.Name) and t_.id == arg.id for t_ in x.targets)]
+            src_ = asg[0].value if len(asg) == 1 else None
+        verbatim = isinstance(src_, ast.Subscript) and isinstance(src_.value, ast.Subscript) and self_attr(src_.value.value) == '_solution'
+        rep.ob('K22b', 'filler-hands-from_string-the-text-as-written', verbatim,
+               f'the filler converts `{unparse(src_, 70) if src_ is not None else "?"}` instead of the solution text itself: what is read back is not what was written (normalised, stripped or re-cased text)', _w(rf, st[0]))
     # K22d every section is interpreted by a fresh instance of the class the recorded year maps its name to
     addf = core.method('PDFFiller', '_add_form')
     g = addf.cfg
@@ -1846,6 +1901,73 @@ def _cond_of(ret):
     return ret
 
 
+# ---------------------------------------------------------------- K0 the request is registered as a whole before anything is attempted
+def k0_solve_shape(core, rep):
+    """Solver.solve() first adds every requested form and only then starts attempting lines.  Anything attempted from inside
+    the loop over the requested forms runs while the forms named later are still unknown to the solver (`Field.form(name)`
+    fails, prompts and the attempt order depend on the order of the request).  Uses no inferred role: it also runs when the
+    role inference fails on a restructured solve()."""
+    f = core.func('habutax/solver.py', 'Solver', 'solve')
+    params = [a.arg for a in f.node.args.args]
+    if len(params) < 2:
+        raise AnalysisError('Solver.solve() takes no list of forms (anchor vanished)')
+    loops = [n for n in f.node.body if isinstance(n, ast.For) and isinstance(n.iter, ast.Name) and n.iter.id == params[1]]
+    if len(loops) != 1:
+        raise AnalysisError('Solver.solve(): the loop over the requested forms was not found (anchor vanished)')
+    calls = [c for st in loops[0].body for c in calls_in(st)]
+    def _attempts(c):
+        nm = call_name(c)
+        if nm in ('_attempt_field', '_attempt_input', 'met_dependents'):
+            return True
+        if nm == '_add_form' or not (isinstance(c.func, ast.Attribute) and isinstance(c.func.value, ast.Name) and c.func.value.id == params[0]):
+            return False
+        try:
+            g = core.func(f.rel, 'Solver', nm)
+        except AnalysisError:
+            return False
+        return any(h.name in ('_attempt_field', '_attempt_input', 'met_dependents') for h in core.reachable_from(g))
+    other = [c for c in calls if _attempts(c)]
+    rep.ob('K0', 'requested-forms-are-all-added-before-anything-is-attempted', bool(calls) and not other,
+           f'Solver.solve() calls {unparse(other[0], 50) if other else "nothing"} inside the loop over the requested forms: lines are attempted (and questions asked) while the forms named '
+           'later in the request are still unknown - a reference to such a form fails or resolves differently, so the result depends on the order in which the forms were requested',
+           f'{f.rel}:{other[0].lineno}' if other else _w(f))
+    first_other = next((i for i, st in enumerate(f.node.body) if st is loops[0]), None)
+    before = [c for st in f.node.body[:first_other] for c in calls_in(st) if call_name(c) in ('_attempt_field', '_attempt_input', 'met_dependents')]
+    rep.ob('K0', 'nothing-attempted-before-the-request-is-registered', not before, 'Solver.solve() attempts lines before it has added the requested forms', _w(f))
+
+
+# ---------------------------------------------------------------- K35 the input file is loaded once, whole and unchanged, when the store is built
+def k35_store_loaded_eagerly(core, rep):
+    """InputStore.__init__ parses the file it is given there and then, and keeps it as read: `config` is a plain attribute
+    bound in the constructor (not a property that loads on first use - write() truncates the file before it would load it),
+    and nothing in the constructor rewrites the parsed configuration (renaming a section onto an existing one clears it)."""
+    ci = core.classes.classes.get('InputStore')
+    if ci is None:
+        raise AnalysisError('class InputStore not found (anchor vanished)')
+    init = core.method('InputStore', '__init__')
+    props = [m for m in ci.node.body if isinstance(m, ast.FunctionDef) and any(unparse(d).split('.')[-1] in ('property', 'cached_property', 'setter') for d in m.decorator_list)]
+    wr = core.method('InputStore', 'write')
+    written = {x.attr for c in calls_in(wr.node) if call_name(c) == 'write' and isinstance(c.func, ast.Attribute) for x in ast.walk(c.func.value) if isinstance(x, ast.Attribute) and self_attr(x)}
+    lazy = [m for m in props if m.name in written or any(call_name(c) in ('read', 'read_file', 'open') for c in calls_in(m))]
+    rep.ob('K35', 'configuration-is-a-plain-attribute', not lazy,
+           f'InputStore.{lazy[0].name if lazy else ""} is a property that loads the file on first use: a write-back that happens before anything was read (the solve was cut short before the '
+           'first question) truncates the file first and then "loads" the empty file - every value it held is gone', f'{ci.rel}:{lazy[0].lineno}' if lazy else ci.rel)
+    reads = [c for c in calls_in(init.node) if call_name(c) in ('read_file', 'read') and isinstance(c.func, ast.Attribute)]
+    rep.ob('K35', 'file-parsed-in-the-constructor', bool(reads), 'InputStore.__init__ does not parse the input file', _w(init))
+    muts = []
+    for x in ast.walk(init.node):
+        if isinstance(x, ast.Call) and isinstance(x.func, ast.Attribute) and x.func.attr in ('remove_section', 'remove_option', 'set', 'add_section', 'update', 'pop', 'popitem', 'clear', 'setdefault', 'read_dict', 'read_string') \
+                and 'config' in unparse(x.func.value):
+            muts.append(x)
+        if isinstance(x, (ast.Assign, ast.AugAssign, ast.Delete)):
+            for t_ in (x.targets if isinstance(x, (ast.Assign, ast.Delete)) else [x.target]):
+                if isinstance(t_, ast.Subscript) and 'config' in unparse(t_.value):
+                    muts.append(x)
+    rep.ob('K35', 'constructor-keeps-the-file-as-read', not muts,
+           f'InputStore.__init__ rewrites the parsed file (`{unparse(muts[0], 60) if muts else ""}`): assigning a section to a name that already exists clears that section first, removing '
+           'sections or options drops values - the next write-back then removes them from the file', _w(init, muts[0]) if muts else _w(init))
+
+
 # ---------------------------------------------------------------- K24 dependency tracker shape
 def k24_tracker_shape(core, rep, parts=('a', 'b', 'c', 'd')):
     s = core.solver
@@ -1900,6 +2022,21 @@ def k24_tracker_shape(core, rep, parts=('a', 'b', 'c', 'd')):
                 else:
                     rep.ob('K24c', f'met-entry-removed-only-when-drained@{unparse(x, 40)}', empty or absent,
                            f'met_dependents() forgets a satisfied dependency ({unparse(x)}) while waiters may still be queued on it', _w(f, n.ast))
+        # the list of satisfied names is only ever appended to (meet) and popped from (the drain): rebinding it wholesale
+        # forgets names that were met while a drain was suspended between two yields - their waiters are never released
+        dt = core.classes.classes.get('DependencyTracker')
+        wipes = []
+        for mname, m in (dt.methods.items() if dt is not None else []):
+            if mname == '__init__':
+                continue
+            for x in ast.walk(m):
+                if isinstance(x, (ast.Assign, ast.AugAssign)) and any(self_attr(t_) in ('_met', '_unmet') for t_ in (x.targets if isinstance(x, ast.Assign) else [x.target])):
+                    wipes.append((mname, x))
+                if isinstance(x, ast.Call) and isinstance(x.func, ast.Attribute) and x.func.attr == 'clear' and self_attr(x.func.value) in ('_met', '_unmet'):
+                    wipes.append((mname, x))
+        rep.ob('K24c', 'tracker-tables-never-rebound-or-cleared', not wipes,
+               f'DependencyTracker.{wipes[0][0] if wipes else ""}() resets a tracker table wholesale (`{unparse(wipes[0][1], 40) if wipes else ""}`): a dependency met while a drain is suspended between '
+               'two yields is wiped with it, so the lines waiting for it are never released although it was met after they registered', _w(f, wipes[0][1]) if wipes else _w(f))
         if n_rm < 2:
             raise AnalysisError('met_dependents(): removal statements not found (anchor vanished)')
         ys = [x for x in ast.walk(f.node) if isinstance(x, ast.Yield)]
